@@ -285,3 +285,59 @@ def bool_rows(prog, A, fid):
     atoms = sorted(guards.atoms_of(f))
     guards.FORMULAS[(guards.fkey(b), tuple(atoms))] = f
     return [["returns true", atoms]]
+
+
+def state_rows(prog, A, fid):
+    """rows [<var> = c] for constant assignments to an integer local that has several constant definitions (state machines)"""
+    b = prog.bodies.get(fid)
+    if b is None:
+        return []
+    S = A.summary(fid)
+    consts = {}
+    for bi, si, s in b.stmts():
+        if s["k"] == "assign" and not s["p"]["p"] and s["rv"]["r"] == "use" and mir.const_int(s["rv"]["a"]) is not None and re.fullmatch(r"[iu](8|16|32|64|size)", b.locals[s["p"]["l"]]["ty"]):
+            consts.setdefault(s["p"]["l"], []).append((bi, mir.const_int(s["rv"]["a"])))
+    rows = []
+    for l, defs in consts.items():
+        vals = sorted({c for _, c in defs})
+        if len(vals) < 2:
+            continue
+        name = "state{%s}" % ",".join(str(v) for v in vals)
+        for bi, c in defs:
+            if bi == 0:
+                continue
+            rows.append(["%s = %d" % (name, c), sorted(guards.guard_set(b, S, bi))])
+    rows.sort(key=lambda r: (r[0], r[1]))
+    return rows
+
+
+def module_table(prog, A, fids, call_rx, adts=(), cursors=True):
+    """generic decision table of a set of functions: calls matching call_rx (literal arguments shown), constructions of the given
+    ADTs, scan-position steps and state-variable assignments, predicate functions' return conditions"""
+    def eff(b, S, ev):
+        nm = mir.strip_generics(ev[1])
+        if not call_rx.search(nm):
+            return None
+        lits = []
+        for i, a in enumerate(ev[2] or []):
+            cs = sorted(sym.fmt(t) for t in a if isinstance(t, tuple) and t[0] == "const")
+            if cs and len(cs) == len(a) and all(re.fullmatch(r"true|false|-?\d+_[iu](\d+|size)|\"[^\"]*\"", c) for c in cs):
+                lits.append("#%d=%s" % (i, "|".join(cs)))
+        return "call %s(%s)" % ("::".join(nm.split("::")[-1:]), ", ".join(lits))
+    t = table_for(prog, A, fids, eff)
+    for fid in fids:
+        extra = []
+        if adts:
+            extra += agg_rows(prog, A, fid, set(adts))
+        if cursors:
+            try:
+                extra += cursor_rows(prog, A, fid)
+            except Exception:
+                pass
+            extra += state_rows(prog, A, fid)
+        extra += bool_rows(prog, A, fid)
+        if extra:
+            key = re.sub(r"\{closure#\d+\}", "{closure}", mir.strip_generics(fid))
+            t.setdefault(key, []).extend(extra)
+            t[key].sort(key=lambda r: (r[0], r[1]))
+    return t
